@@ -40,9 +40,10 @@ ASSUMPTIONS = [
 PEPS = ["TA", "TB", "DA", "DB"]
 LEVEL_FILES = {"Peptide": "peptides", "ModifiedPeptide": "modifiedpeptides", "Precursor": "precursors",
                "PeptideGroup": "peptidegroups"}
-DEFAULT = dict(dedup=True, rollup=True, decoys=True, ncoll=1, prefixes=False, fmt="pin", extras=False, order="desc")
+DEFAULT = dict(dedup=True, rollup=True, decoys=True, ncoll=1, prefixes=False, fmt="pin", extras=False, order="desc", chunk=None)
 DEVIATIONS = [("dedup", False), ("rollup", False), ("decoys", False), ("ncoll", 2), ("ncoll", 3), ("prefixes", True),
-              ("fmt", "parquet"), ("extras", True), ("order", "asc"), ("order", "rot")]
+              ("fmt", "parquet"), ("extras", True), ("extras", "same"), ("order", "asc"), ("order", "rot"),
+              ("chunk", 2), ("chunk", 3)]
 NBALLAST = 6
 
 
@@ -72,20 +73,30 @@ def build_rows(core, coll, tie=None):
         if tie is not None and j == tie + 1:
             score += 1.0  # equal to the previous row
         rows.append(dict(id=f"c{coll}r{j}", scan=sp, label=pep[0] == "T", peptide=pep + "PEPK", score=score,
-                         mod=pep + "PEPK" + ("[x]" if j % 2 else "[y]"), group="G" + pep[0]))
+                         mod=pep + "PEPK" + ("[x]" if j % 2 else "[y]"), group="G" + pep[0],
+                         mod_same=pep + "PEPK" + ("[x]" if j % 2 else ""), group_same=pep + "PEPK" if j % 3 == 0 else "G" + pep[0]))
         score -= 1.0
     score = 50.0
     for k in range(2 * NBALLAST):
         t = k % 2 == 0
         pep = ("TZ" if t else "DZ") + "AL" + "ACDEFGHILMNQ"[k] + "K"
         rows.append(dict(id=f"c{coll}b{k}", scan=11 + k, label=t, peptide=pep, score=score, mod=pep + "[z]",
-                         group="G" + pep))
+                         group="G" + pep, mod_same=pep, group_same=pep))
         score -= 1.0
     for r in rows:
         r["spectrum"] = r["scan"]
         r["prec"] = r["mod"] + "/" + str(2 + r["scan"] % 2)
+        r["prec_same"] = r["mod_same"] if r["scan"] % 2 else r["mod_same"] + "/2"
         r["proteins"] = "P_" + r["peptide"]
     return rows
+
+
+def level_key(extras):
+    """Row keys that hold the level columns: with extras == 'same' identifier strings of different levels coincide
+    (an unmodified peptide's ModifiedPeptide / Precursor / PeptideGroup equal its Peptide string)."""
+    if extras == "same":
+        return {"Peptide": "peptide", "ModifiedPeptide": "mod_same", "Precursor": "prec_same", "PeptideGroup": "group_same"}
+    return {"Peptide": "peptide", "ModifiedPeptide": "mod", "Precursor": "prec", "PeptideGroup": "group"}
 
 
 def to_frame(rows, extras, order):
@@ -105,14 +116,14 @@ def to_frame(rows, extras, order):
         "Peptide": [r["peptide"] for r in rs],
     }
     if extras:
-        d["ModifiedPeptide"] = [r["mod"] for r in rs]
-        d["Precursor"] = [r["prec"] for r in rs]
-        d["PeptideGroup"] = [r["group"] for r in rs]
+        lk = level_key(extras)
+        d["ModifiedPeptide"] = [r[lk["ModifiedPeptide"]] for r in rs]
+        d["Precursor"] = [r[lk["Precursor"]] for r in rs]
+        d["PeptideGroup"] = [r[lk["PeptideGroup"]] for r in rs]
     d["Proteins"] = [r["proteins"] for r in rs]
     return pd.DataFrame(d), np.array([r["score"] for r in rs], dtype=float)
 
 
-LEVEL_KEY = {"Peptide": "peptide", "ModifiedPeptide": "mod", "Precursor": "prec", "PeptideGroup": "group"}
 
 
 def validate_collection(rows, cfg, files, has_tie, add):
@@ -136,7 +147,7 @@ def validate_collection(rows, cfg, files, has_tie, add):
         if cfg["decoys"] and ddf is None:
             add(f"{fname}-decoy-file-missing", f"decoys.{fname} was not written")
             return
-        key = (lambda r: r["spectrum"]) if lvl == "psms" else (lambda r, k=LEVEL_KEY[lvl]: r[k])
+        key = (lambda r: r["spectrum"]) if lvl == "psms" else (lambda r, k=level_key(cfg["extras"])[lvl]: r[k])
         # expected (unique when there is no tie)
         if lvl == "psms" and not cfg["dedup"]:
             expected = {r["id"] for r in rows}
@@ -189,7 +200,7 @@ def validate_collection(rows, cfg, files, has_tie, add):
                         f"({row['peptide']},{row['proteinIds']},{row['score']}) but the input PSM is "
                         f"({r['peptide']},{r['proteins']},{r['score']})")
                 if cfg["extras"] and cfg["rollup"]:
-                    for col, k in (("ModifiedPeptide", "mod"), ("Precursor", "prec"), ("PeptideGroup", "group")):
+                    for col, k in list(level_key(cfg["extras"]).items())[1:]:
                         if col in df.columns and row[col] != r[k]:
                             add(f"{fname}-level-column-mixed", f"{name}.{fname}: {col} of {row['PSMId']} is {row[col]!r} not {r[k]!r}")
                 a, b = qref.get(row["PSMId"], (None, None))
@@ -219,7 +230,8 @@ def run_case(case, acc, with_rollup_tool=False):
             sig_seen.add(sig)
             acc.violation(Violation(sig, msg, case))
 
-    set_chunks(**DEFAULT_CHUNKS)
+    # streaming chunk size of assign_confidence: duplicates of one spectrum then sit in different score chunks
+    set_chunks(**dict(DEFAULT_CHUNKS, **({"CONFIDENCE_CHUNK_SIZE": cfg["chunk"]} if cfg.get("chunk") else {})))
     sc = worker_scratch()
     work = sc.sub()
     try:
@@ -267,6 +279,7 @@ def run_case(case, acc, with_rollup_tool=False):
             rollup_tool(case, cfg, colls, retained_all, out, work, add)
         return outcome
     finally:
+        set_chunks(**DEFAULT_CHUNKS)
         shutil.rmtree(work, ignore_errors=True)
 
 
@@ -285,7 +298,8 @@ def rollup_tool(case, cfg, colls, retained_all, src, work, add):
     by_id = {r["id"]: r for r in pool}
     lvls = {"peptides": "peptide"}
     if cfg["extras"]:
-        lvls.update({"modified_peptides": "mod", "precursors": "prec", "peptide_groups": "group"})
+        lk = level_key(cfg["extras"])
+        lvls.update({"modified_peptides": lk["ModifiedPeptide"], "precursors": lk["Precursor"], "peptide_groups": lk["PeptideGroup"]})
     for fname, k in lvls.items():
         try:
             tdf = read_result(dest / f"rollup.targets.{fname}")
@@ -355,11 +369,12 @@ def make_cases(ctx):
     cases = []
     if ctx.quick:
         plan = [(1, 2), (2, 2), (3, 1), (4, 0)]
-        extra4 = [{"dedup": False}]
+        extra4 = [{"dedup": False}, {"chunk": 2}]
         tie_n = [2, 3]
     else:
         plan = [(1, 3), (2, 3), (3, 3), (4, 2), (5, 0)]
-        extra4 = [{"dedup": False}, {"rollup": False}, {"extras": True}, {"fmt": "parquet"}, {"decoys": False}]
+        extra4 = [{"dedup": False}, {"rollup": False}, {"extras": True}, {"fmt": "parquet"}, {"decoys": False}, {"chunk": 2},
+                  {"chunk": 3, "extras": "same"}]
         tie_n = [2, 3, 4]
     nmax = plan[-1][0]
     for n, maxdev in plan:
@@ -381,7 +396,7 @@ def make_cases(ctx):
     # stand-alone roll-up tool on written results (prefixes + decoys so that the tool finds *.targets.psms)
     for n in range(1, (3 if ctx.quick else 4) + 1):
         for core in canonical_cores(n):
-            for ncoll, extras in ((1, False), (2, True)) if (ctx.quick or n == 4) else ((1, False), (1, True), (2, False), (2, True)):
+            for ncoll, extras in ((1, False), (2, True), (1, "same")) if (ctx.quick or n == 4) else ((1, False), (1, True), (2, False), (2, True), (1, "same"), (2, "same")):
                 cases.append({"core": [list(x) for x in core], "_tool": True,
                               "config": dict(ncoll=ncoll, prefixes=True, extras=extras)})
     return cases, nmax
